@@ -1,4 +1,5 @@
 import RagcModel.Lemmas.Pipeline
+import RagcModel.Lemmas.QueueProduct
 /-!
 C05 — the compression pipeline always terminates.
 
@@ -18,8 +19,11 @@ Vocabulary (defined in `Lemmas/Pipeline.lean`):
 * `ModeA ws` — every worker is `idle`, `working _`, `ph 4`, `bar 1` or `exited` (collecting a round);
   `ModeB ws` — for one `j ∈ {1,2,3}` every worker is `ph j` or `bar (j+1)` (inside a round, lockstep).
 
-Outside the model: OS scheduling fairness, the condvar protocol inside the queue (C06), worker
-panics, `drain`'s polling loop (modelled as "enabled when the queue is empty").
+Outside the model: OS scheduling fairness, worker panics, `drain`'s polling loop (modelled as
+"enabled when the queue is empty"). The condvar protocol inside the queue is no longer outside: the
+last section replaces the atomic queue by the critical-section model of C06 (`Model/Queue.lean`) and
+shows that nothing changes (`Lemmas/QueueProduct.lean` has the product system; spurious wake-ups are
+allowed, what is assumed of `Condvar` is what `Model/Queue.lean` states).
 -/
 namespace Ragc.Props.C05
 open Ragc.Pipeline
@@ -172,5 +176,117 @@ theorem oversize_blocks :
     | advance hw _ _ => have := mem_of_getElem? hw; simp [oversizeStuck] at this
     | advance4 hw => have := mem_of_getElem? hw; simp [oversizeStuck] at this
   · exact ⟨{ oversizeStuck with prog := oversizeProg.tail.tail, queue := [.contig 1 2147483647 9 9 0] }, .prod, by decide⟩
+
+/-! ### The queue at condvar granularity (the model of C06) in place of the atomic queue
+
+`Product.PState` = a pipeline state `p` + a state `q` of `Model/Queue.lean` with `N + 1` threads
+(thread 0 the producer, thread `w + 1` worker `w`). Transitions `Product.pstep`: `stut e` — a Queue
+event that completes no call (the producer enters `push` with the next item of its program, a worker
+at the top of its loop enters `pull`, go to sleep, resume after a notify, spurious wake-up);
+`push w` / `pull t x w` / `eos t` / `close` — the linearisation event of the Queue model
+(`pushAdmit 0 w`, `pullTake (t+1) (enc x) w`, `pullEos (t+1)`, `close 0`) together with the
+completed-call step of the pipeline; `waitEmpty`; `work e` (buffer / release / advance).
+`enc` translates `ContigTask`s into items of the Queue model (`Product.EncOK`: same size, and on the
+items of the program `taskLt a b ↔ key (enc a) < key (enc b)`). -/
+
+/-- Such a translation exists for every program: the key of `x` is the number of program items
+strictly below `x` (`taskLt` is a strict weak order). -/
+theorem item_encoding_exists (prog : List Instr) : Product.EncOK (Product.rankEnc prog) prog :=
+  Product.rankEnc_ok prog
+
+example : Product.rankEnc Product.Demo.prog Product.Demo.ctg = ⟨0, 2, 5⟩ ∧
+    Product.rankEnc Product.Demo.prog Product.Demo.tok = ⟨0, 0, 0⟩ := by decide
+
+/-- Safety: whatever the threads do inside the queue, the pipeline component of every reachable
+product state is a reachable state of the atomic model (so `round_accounting`, C04's
+schedule-independence … apply to it), and its ghost queue is the queue of the Queue model: same
+items up to order, same `closed`, same byte count. -/
+theorem product_refines_pipeline {enc : Product.PItem → Product.QItem} {prog : List Instr}
+    {cap N : Nat} {s : Product.PState} (henc : Product.EncOK enc prog)
+    (hr : Product.PReach enc prog cap N s) :
+    Reachable true prog cap N s.p ∧ (s.p.queue.map enc).Perm s.q.items ∧
+      s.p.closed = s.q.closed ∧ s.p.cur = s.q.cur ∧ s.q.cur = Queue.sizeSum s.q.items :=
+  let hi := Product.pinv_reach hr
+  ⟨hi.reach, hi.perm, hi.closed_eq, Product.pinv_cur henc hi, hi.a.cur_eq⟩
+
+example : Reachable true Product.Demo.prog 8 2 Product.Demo.notified.p ∧
+    (Product.Demo.notified.p.queue.map Product.Demo.enc).Perm Product.Demo.notified.q.items :=
+  let h := product_refines_pipeline (item_encoding_exists _)
+    (Product.prun_reach _ .init Product.Demo.run_notified)
+  ⟨h.1, h.2.1⟩
+
+/-- The product hides no behaviour of the queue: in a reachable state, every event that the Queue
+model enables for a call in progress (anything but the start of a new call — those are fixed by the
+threads' programs) is a transition of the product with exactly that effect on the queue. In
+particular a `pushAdmit` / `pullTake` / `pullEos` that the condvar-level queue performs is always a
+legal completed call of the atomic model. -/
+theorem product_hides_nothing {enc : Product.PItem → Product.QItem} {prog : List Instr}
+    {cap N : Nat} {s : Product.PState} (henc : Product.EncOK enc prog) (hwf : WellFormedShape N prog)
+    (hr : Product.PReach enc prog cap N s) {e : Queue.Event} {q' : Queue.State}
+    (hs : Queue.step cap s.q e = some q') (hns : e.isStart = false) :
+    ∃ pe p', Product.pstep enc s pe = some ⟨p', q'⟩ :=
+  Product.product_faithful henc hwf (Product.pinv_reach hr) hs hns
+
+/-- in `Demo.notified` the Queue model lets the notified worker resume; the product has that step -/
+example : ∃ pe p', Product.pstep Product.Demo.enc Product.Demo.notified pe =
+    some ⟨p', Product.Demo.notified.q.setT 1 .pulling⟩ :=
+  product_hides_nothing (N := 2) (item_encoding_exists _)
+    ⟨by decide, [.push Product.Demo.ctg, .push Product.Demo.tok, .push Product.Demo.tok], rfl, by decide,
+      .contig rfl (.token rfl (by decide) (.tokenLast rfl rfl .nil))⟩
+    (Product.prun_reach _ .init Product.Demo.run_notified) (e := .pullWake 1) (by decide) rfl
+
+/-- No completed call is withheld by the condvar protocol: whenever the atomic model can take a
+step from the pipeline component, the product has an enabled transition that is not a spurious
+wake-up — of the same thread, or, when that thread is a consumer asleep in `not_empty.wait`, of the
+consumer the wake-up went to (`Props.C06.blocked_call_has_cause`). The producer is never asleep while
+its item fits (`no_lost_wakeup_not_full_single`); no hypothesis on the program. -/
+theorem completed_call_step_matched {enc : Product.PItem → Product.QItem} {prog : List Instr}
+    {cap N : Nat} {s : Product.PState} (henc : Product.EncOK enc prog)
+    (hr : Product.PReach enc prog cap N s) {p' : State} (hs : Step true s.p p') :
+    ∃ e s', Product.pstep enc s e = some s' ∧ e.isSpur = false :=
+  Product.abstract_step_matched henc (Product.pinv_reach hr) hs
+
+/-- in `Demo.asleep` (worker 0 asleep, queue empty) the atomic model can push; so can the product -/
+example : ∃ e s', Product.pstep Product.Demo.enc Product.Demo.asleep e = some s' ∧ e.isSpur = false :=
+  completed_call_step_matched (item_encoding_exists _)
+    (Product.prun_reach _ .init Product.Demo.run_asleep) ⟨.prod, rfl⟩
+
+/-- Termination over condvars. For a well-formed program, with the queue being the Queue model of
+C06 (any `notify_one` choices, spurious wake-ups allowed): a reachable product state is stuck —
+nothing but spurious wake-ups is enabled: no thread can take a step inside its call, start the next
+call of its program, or work outside the queue — **iff** its pipeline component is final (producer
+done, queue empty, every worker exited). So the pipeline cannot hang inside the queue; combines
+`no_deadlock_fixed` with `completed_call_step_matched`. No hypothesis on item sizes. -/
+theorem pipeline_termination_over_condvars (prog : List Instr) (N cap : Nat)
+    (hwf : WellFormedShape N prog) (enc : Product.PItem → Product.QItem)
+    (henc : Product.EncOK enc prog) (s : Product.PState) (hr : Product.PReach enc prog cap N s) :
+    Product.Stuck enc s ↔ Final s.p :=
+  ⟨Product.stuck_final henc (fun p hp hnf => no_deadlock_fixed prog N cap p hwf hp hnf)
+      (Product.pinv_reach hr),
+   Product.final_stuck (Product.pinv_reach hr)⟩
+
+/-- the 32-step run `Demo.evs` (a worker sleeps, is notified, the contig and the token round go
+through, both workers see end-of-stream) ends in a final, hence stuck, state -/
+example : Product.Stuck Product.Demo.enc Product.Demo.final :=
+  (pipeline_termination_over_condvars Product.Demo.prog 2 8
+    ⟨by decide, [.push Product.Demo.ctg, .push Product.Demo.tok, .push Product.Demo.tok], rfl, by decide,
+      .contig rfl (.token rfl (by decide) (.tokenLast rfl rfl .nil))⟩
+    _ (item_encoding_exists _) _ (Product.prun_reach _ .init Product.Demo.run_final)).mpr (by decide)
+example : ¬ Final Product.Demo.notified.p := by decide
+
+/-- And it gets there: every transition of the product other than a spurious wake-up strictly
+decreases `Product.M = Φ p · (5 (N+1) + 1) + Σ thread weights` (outside the queue 5, notified 4,
+evaluating the loop condition 3, asleep 2), from ANY state. Hence an execution without spurious
+wake-ups has at most `M` transitions, and by the previous theorem it can only stop in a final state.
+(With spurious wake-ups a sleeper can wake and go back to sleep for ever: that is scheduling
+fairness, outside the model.) -/
+theorem condvar_executions_bounded (enc : Product.PItem → Product.QItem) (s s' : Product.PState)
+    (es : List Product.PEv) (h : Product.prun enc s es = some s')
+    (hsp : ∀ e ∈ es, e.isSpur = false) : es.length + Product.M s' ≤ Product.M s :=
+  Product.prun_bounded es h hsp
+
+example : Product.M (Product.init Product.Demo.prog 8 2) = 28 * 16 + 15 := by decide
+example : 32 + Product.M Product.Demo.final ≤ Product.M (Product.init Product.Demo.prog 8 2) :=
+  condvar_executions_bounded _ _ _ Product.Demo.evs Product.Demo.run_final (by decide)
 
 end Ragc.Props.C05
